@@ -63,6 +63,12 @@ def axioms():
     return out
 
 
+# every fact the SMT side uses about ssum / scard, by the name of the Lean theorem that proves it (checked by the runner: a name
+# without a theorem of that name in lean/SetSum.lean is an engine error)
+LEMMA_NAMES = ("ssum_insert", "ssum_insert_mem", "ssum_erase", "ssum_erase_not_mem", "ssum_update", "ssum_empty", "ssum_congr", "ssum_union", "ssum_nonneg", "ssum_zero",
+               "ssum_member_le", "ssum_filter_le", "sum_enumeration", "enumeration_length", "card_insert", "card_erase", "card_empty", "card_nonneg", "card_zero", "card_union")
+
+
 def ensure_axioms(ctx):
     if not ctx.ghost.get("setsum_axioms"):
         ctx.ghost["setsum_axioms"] = True
